@@ -326,6 +326,23 @@ func (r *rewriter) rewrite() {
 			} else {
 				r.substCall(n)
 			}
+		case *ast.AssignStmt:
+			if r.mapMon && r.goDepth > 0 && len(n.Lhs) == 1 {
+				if ix, ok := n.Lhs[0].(*ast.IndexExpr); ok {
+					if t := r.info.TypeOf(ix.X); t != nil {
+						if _, isMap := t.Underlying().(*types.Map); isMap {
+							r.usedVrt = true
+							r.note(n.Pos(), "map write (monitored)")
+							en := r.fresh("m")
+							c.Replace(&ast.BlockStmt{List: []ast.Stmt{
+								&ast.AssignStmt{Lhs: []ast.Expr{ast.NewIdent(en)}, Tok: token.DEFINE, Rhs: []ast.Expr{call(vrtSel("MapW"), ix.X, strLit(r.site(n.Pos())))}},
+								n,
+								&ast.ExprStmt{X: call(ast.NewIdent(en))},
+							}})
+						}
+					}
+				}
+			}
 		case *ast.RangeStmt:
 			if r.chanRange[n] {
 				c.Replace(r.rewriteChanRange(n))
